@@ -14,12 +14,12 @@ FUNCTIONS = [("pandapower.toolbox.grid_modification", "replace_line_by_impedance
              ("pandapower.toolbox.grid_modification", "replace_gen_by_ext_grid"),
              ("pandapower.build_branch", "_calc_line_parameter"), ("pandapower.build_branch", "_calc_impedance_parameter"),
              ("pandapower.build_bus", "_calc_pq_elements_and_add_on_ppc"), ("pandapower.build_bus", "_calc_shunts_and_add_on_ppc")]
-STUBS = ["the create_* call made by the replace function is captured with its (symbolic) arguments and fed to the same ppc builders as the original "
+STUBS = ["builtin complex(r, x) in merge_parallel_line -> symbolic complex", "the create_* call made by the replace function is captured with its (symbolic) arguments and fed to the same ppc builders as the original "
          "element; table edits (drop, group membership, result table adaption, profiles) are stubbed out (structural)"]
 ASSUMPTIONS = ["line/impedance/ward parameters symbolic; the documented result-preserving mode only_valid_replace=True (lines without c and g)"]
 OUTSIDE = ["re-indexing, merge_nets, select_subnet, drop_inactive_elements, fuse_buses (structural)", "only_valid_replace=False (documented as not neutral)",
            "va_degree of an ext_grid replaced by a slack gen (a gen has no angle setpoint)"]
-BOUNDS = {"quick": "one element per instance: line->impedance, impedance->line, ward->load+shunt, ext_grid->gen, gen->ext_grid", "thorough": "same"}
+BOUNDS = {"quick": "one element per instance: line->impedance, impedance->line, ward->load+shunt, xward->load+shunt+impedance+gen, merge_parallel_line, ext_grid->gen, gen->ext_grid", "thorough": "same"}
 _cache = {}
 
 
@@ -222,10 +222,136 @@ def make_slack(direction):
     return fn
 
 
+def make_merge_parallel():
+    """merge_parallel_line: a line with parallel = p becomes a single line with the same two-port and the same total rating"""
+    def fn(ctx):
+        bb = ctx.load("pandapower.build_branch")
+        mY = ctx.load("pandapower.pypower.makeYbus")
+        gm = ctx.load("pandapower.toolbox.grid_modification")
+        from symx.core import SComplex
+        net = copy.deepcopy(_li_net())
+        V = {c: ctx.var(c, *r) for c, r in {"r_ohm_per_km": (0.01, 1.), "x_ohm_per_km": (0.01, 1.), "c_nf_per_km": (0., 300.), "g_us_per_km": (0., 10.),
+                                            "length_km": (0.1, 50.), "parallel": (1., 4.), "max_i_ka": (0.1, 2.), "df": (0.1, 1.)}.items()}
+        for c, v in V.items():
+            setcol(ctx, net.line, c, [v])
+        fl, tl = net._pd2ppc_lookups["branch"]["line"]
+
+        def two_port():
+            ppc = {"bus": ctx.obj(net._ppc["bus"]), "branch": ctx.obj(net._ppc["branch"].real), "baseMVA": net.sn_mva}
+            bb._calc_line_parameter(net, ppc)
+            return c02._two_port(ctx, mY, ppc["branch"][fl].copy())
+        before = two_port()
+        rating_before = net.line.max_i_ka.values[0] * net.line.df.values[0] * net.line.parallel.values[0]
+        extra = dict(complex=(lambda re, im: SComplex(re, im))) if ctx.symbolic else {}
+        with patched(gm, **extra):
+            gm.merge_parallel_line(net, 0)
+        after = two_port()
+        for k in before:
+            ctx.eq(f"merged_line_two_port_equals_parallel_lines/{k}", after[k], before[k])
+        ctx.eq("merged_line_is_single", net.line.parallel.values[0], 1.0)
+        ctx.eq("total_current_rating_preserved", net.line.max_i_ka.values[0] * net.line.df.values[0] * net.line.parallel.values[0], rating_before)
+    return fn
+
+
+def _xw_net():
+    if "xw" not in _cache:
+        net = pp.create_empty_network(sn_mva=10.)
+        b0 = pp.create_bus(net, 20.)
+        b1 = pp.create_bus(net, 20.)
+        pp.create_ext_grid(net, b0)
+        pp.create_line_from_parameters(net, b0, b1, 2., 0.1, 0.3, 10., 1.)
+        pp.create_load(net, b1, 1., 0.5)
+        pp.create_xward(net, b1, 0.1, 0.05, 0.02, 0.01, 0.4, 0.8, 1.02)
+        pp.create_impedance(net, b0, b1, 0.01, 0.02, 10.)
+        pp.runpp(net, numba=False, lightsim2grid=False)
+        _cache["xw"] = net
+    return _cache["xw"]
+
+
+def make_xward():
+    """replace_xward_by_internal_elements: constant power part -> load, constant impedance part -> shunt, internal impedance ->
+    impedance element with the same two-port, internal voltage source -> generator with the same voltage set point and no active power"""
+    def fn(ctx):
+        bbus = ctx.load("pandapower.build_bus")
+        bb = ctx.load("pandapower.build_branch")
+        mY = ctx.load("pandapower.pypower.makeYbus")
+        gm = ctx.load("pandapower.toolbox.grid_modification")
+        from pandapower.pypower.idx_bus import PD, QD, GS, BS
+        net = copy.deepcopy(_xw_net())
+        W = {c: ctx.var(c, -5., 5.) for c in ("ps_mw", "qs_mvar", "pz_mw", "qz_mvar")}
+        W.update(r_ohm=ctx.var("r_ohm", 0.01, 10.), x_ohm=ctx.var("x_ohm", 0.01, 10.), vm_pu=ctx.var("vm_pu", 0.9, 1.1))
+        for c, v in W.items():
+            setcol(ctx, net.xward, c, [v])
+        sn = ctx.var("sn_mva", 1., 100.)
+        net.sn_mva = sn
+
+        def bus_rows(n):
+            ppc = {"bus": ctx.obj(n._ppc["bus"]), "gen": ctx.obj(n._ppc["gen"]), "branch": ctx.obj(n._ppc["branch"].real), "baseMVA": sn}
+            ppc["bus"][:, [PD, QD, GS, BS]] = 0.
+            bbus._calc_pq_elements_and_add_on_ppc(n, ppc)
+            bbus._calc_shunts_and_add_on_ppc(n, ppc)
+            return ppc
+        ppc0 = bus_rows(net)
+        bb._calc_xward_parameter(net, ppc0)
+        fx, tx = net._pd2ppc_lookups["branch"]["xward"]
+        xw_tp = c02._two_port(ctx, mY, ppc0["branch"][fx].copy())
+        cap = {}
+
+        def fake(name, ret):
+            def f_(net_, *a, **kw):
+                cap[name] = (a, kw)
+                return ret
+            return f_
+        net.res_xward = net.res_xward.iloc[0:0]
+        with patched(gm, **_stubs(gm, create_bus=fake("bus", 77), create_load=fake("load", 7), create_shunt=fake("shunt", 7), create_gen=fake("gen", 7),
+                                  create_impedance=fake("impedance", 7))):
+            gm.replace_xward_by_internal_elements(net, xwards=[0])
+        ctx.true("xward_was_replaced_by_bus_load_shunt_gen_impedance", set(cap) == {"bus", "load", "shunt", "gen", "impedance"})
+        if set(cap) != {"bus", "load", "shunt", "gen", "impedance"}:
+            return
+        (lbus, lp, lq), _ = cap["load"]
+        (sbus,), skw = cap["shunt"]
+        (gbus, gp, gvm), _ = cap["gen"]
+        (ifb, itb, ir, ix, isn), _ = cap["impedance"]
+        ctx.true("elements_sit_at_the_xward_bus_and_the_new_internal_bus", lbus == 1 and sbus == 1 and gbus == 77 and ifb == 1 and itb == 77)
+        ctx.eq("internal_source_has_the_xward_voltage_setpoint", gvm, W["vm_pu"])
+        ctx.eq("internal_source_injects_no_active_power", gp, 0.0)
+        # bus rows: the same net with the xward switched off and the captured load / shunt added
+        n2 = copy.deepcopy(_xw_net())
+        n2.sn_mva = sn
+        n2._is_elements["xward"] = np.array([False])
+        n2.load = pd.concat([n2.load, n2.load.iloc[[0]]], ignore_index=True)
+        n2._is_elements["load"] = np.array([True, True])
+        setcol(ctx, n2.load, "p_mw", [n2.load.p_mw.values[0], lp])
+        setcol(ctx, n2.load, "q_mvar", [n2.load.q_mvar.values[0], lq])
+        pp.create_shunt(n2, sbus, 0.1, 0.1)
+        n2._is_elements["shunt"] = np.array([True])
+        setcol(ctx, n2.shunt, "p_mw", [skw["p_mw"]])
+        setcol(ctx, n2.shunt, "q_mvar", [skw["q_mvar"]])
+        ppc1 = bus_rows(n2)
+        for b in range(ppc0["bus"].shape[0]):
+            for nm, col in (("PD", PD), ("QD", QD), ("GS", GS), ("BS", BS)):
+                ctx.eq(f"bus{b}_{nm}_unchanged", ppc1["bus"][b, col], ppc0["bus"][b, col])
+        # internal impedance: the impedance element's two-port equals the xward branch
+        for k_dst, v in (("rft_pu", ir), ("xft_pu", ix), ("rtf_pu", ir), ("xtf_pu", ix), ("sn_mva", isn)):
+            setcol(ctx, n2.impedance, k_dst, [v])
+        for k_dst in ("gf_pu", "bf_pu", "gt_pu", "bt_pu"):
+            if k_dst in n2.impedance:
+                setcol(ctx, n2.impedance, k_dst, [0.0])
+        bb._calc_impedance_parameter(n2, ppc1)
+        fi, ti = n2._pd2ppc_lookups["branch"]["impedance"]
+        imp_tp = c02._two_port(ctx, mY, ppc1["branch"][fi])
+        for k in xw_tp:
+            ctx.eq(f"impedance_two_port_equals_xward_branch/{k}", imp_tp[k], xw_tp[k])
+    return fn
+
+
 def instances(tier):
     return [Inst("line_to_impedance", make_line_to_imp(), nvars=24, samples=3, meta=dict(function="replace_line_by_impedance")),
             Inst("impedance_to_line", make_imp_to_line(), nvars=24, samples=3, meta=dict(function="replace_impedance_by_line")),
             Inst("ward_to_load_and_shunt", make_ward(), nvars=24, samples=3, meta=dict(function="replace_ward_by_internal_elements")),
+            Inst("xward_to_internal_elements", make_xward(), nvars=30, samples=3, meta=dict(function="replace_xward_by_internal_elements")),
+            Inst("merge_parallel_line", make_merge_parallel(), nvars=24, samples=3, meta=dict(function="merge_parallel_line")),
             Inst("ext_grid_to_gen", make_slack("ext_grid_to_gen"), nvars=12, samples=3, meta=dict(function="replace_ext_grid_by_gen")),
             Inst("gen_to_ext_grid", make_slack("gen_to_ext_grid"), nvars=12, samples=3, meta=dict(function="replace_gen_by_ext_grid"))]
 
